@@ -81,6 +81,14 @@ def check(ctx):
     raises = g.ids(lambda n: n.kind == "stmt" and isinstance(n.ast, ast.Raise) and "AlreadyCalledError" in src(n.ast))
     ctx.check(bool(raises) and all(g.guarded(r, lambda e: _test_is(e, "self.called"), True) for r in raises),
               "already-called/raise", q, "AlreadyCalledError is not raised (only) on the already-called branch")
+    # ... and only once the one-shot suppression has been ruled out: a raise reachable while the flag is still
+    # set (e.g. a debug-mode branch placed before the flag test) turns the promised silent ignore into an error
+    for r in raises:
+        ctx.check(g.guarded(r, lambda e: _test_is(e, "self._suppressAlreadyCalled"), False),
+                  "already-called/raise-only-when-not-suppressed", ctx.construct(q, g.node(r).ast),
+                  "AlreadyCalledError can be raised while _suppressAlreadyCalled is still set (after cancel() without a canceller the "
+                  "one late result must be silently ignored on every path, e.g. also with Deferred debugging enabled)",
+                  witness=g.describe(g.path([g.entry], [r])))
     # canceller disarmed on firing
     disarm = g.ids(lambda n: n.kind == "stmt" and isinstance(n.ast, ast.Assign) and any(_is_self_attr(t, "_canceller") for t in n.ast.targets)
                    and isinstance(n.ast.value, ast.Constant) and n.ast.value.value is None)
@@ -201,6 +209,9 @@ MUTANTS = [
            more=[(DEFER, "        self.result = result\n        self._runCallbacks()\n", "        self.result = result\n        self._runCallbacks()\n        self.called = True\n")]),
 ]
 MUTANTS += [
+    Mutant("debug-branch-raises-before-suppress-test", DEFER, "        if self.called:\n            if self._suppressAlreadyCalled:\n                self._suppressAlreadyCalled = False\n                return\n            if self.debug:\n",
+           "        if self.called:\n            if self.debug and self._debugInfo is not None:\n                raise AlreadyCalledError(self._debugInfo._getDebugTracebacks())\n            if self._suppressAlreadyCalled:\n                self._suppressAlreadyCalled = False\n                return\n            if self.debug:\n",
+           expect_rule="already-called/raise-only-when-not-suppressed"),
     Mutant("suppressed-result-still-raises", DEFER, "                self._suppressAlreadyCalled = False\n                return\n",
            "                self._suppressAlreadyCalled = False\n", expect_rule="already-called/suppressed-result-ignored"),
     Mutant("forward-only-if-awaited-unfired", DEFER, "        elif isinstance(self.result, Deferred):\n            # Waiting for another deferred -- cancel it instead.\n",
